@@ -352,6 +352,12 @@ func violationKey(pc *progCase, res *analysisResult, l int, sc *gen.Scenario) st
 	if l == sc.WLine {
 		return "local-race:writer-side:share=" + sc.Share
 	}
+	if sc.Access == "namedptrload" {
+		return "local-race:named-pointer-load"
+	}
+	if sc.Via == "gorunhelper" {
+		return "local-race:closure-through-parameter"
+	}
 	if sc.Via == "method" {
 		return "local-race:struct-receiver"
 	}
@@ -489,7 +495,9 @@ func main() {
 	// 1. fixed corpus: replay programs of the known findings first (one run per distinct program)
 	seenReplay := map[string]bool{}
 	for _, kf := range lib.KnownFindings("C14") {
-		if kf.Status != "open" || seenReplay[kf.Replay] {
+		// open findings: expected to fail (KNOWN-FINDING); fixed findings: regression inputs, a failure
+		// on them is an ordinary VIOLATION
+		if seenReplay[kf.Replay] {
 			continue
 		}
 		seenReplay[kf.Replay] = true
@@ -509,6 +517,7 @@ func main() {
 	}
 	if explore {
 		nProgs, perProg = 10, 120
+		fmt.Sscanf(os.Getenv("VERIF_C14_EXPLORE"), "%dx%d", &nProgs, &perProg)
 	}
 	for p := 0; p < nProgs; p++ {
 		scs := gen.RandScenarios(rnd, perProg, nil)
